@@ -197,6 +197,9 @@ def enabled(ref, tier):
                     ev.append(["var_relabel", key, vd.index(d), 0, alt])
     if len(dims) >= 1 and len(fresh) >= len(dims):
         ev.append(["dims", fresh[:len(dims)]])
+    if len(dims) >= 2:      # permutations of the names already in use (swap / rotation): must land on the right axes
+        ev.append(["dims", dims[1:] + dims[:1]])
+        ev.append(["rename_axes_map", dict(zip(dims, dims[1:] + dims[:1]))])
     if "u" not in dims:
         ev.append(["append_axis", "u"])
     ks = sorted(ref.vars)
@@ -224,6 +227,8 @@ def apply_impl(ds, ev):
         ds.axes[ev[1]].name = ev[2]
     elif k == "rename_axes":
         ds.rename_axes({ev[1]: ev[2]})
+    elif k == "rename_axes_map":
+        ds.rename_axes(dict(ev[1]))
     elif k == "set_axis_name":
         ds.set_axis(axis=ev[1], name=ev[2])
     elif k == "dims":
@@ -275,9 +280,12 @@ def apply_ref(ref, ev):
         ref.rename(ref.axes[ev[1]][0], ev[2])
     elif k == "rename_axes":
         ref.rename(ev[1], ev[2])
-    elif k == "dims":
-        for old, new in zip(ref.dims(), ev[1]):
-            ref.rename(old, new)
+    elif k in ("dims", "rename_axes_map"):
+        mapping = dict(zip(ref.dims(), ev[1])) if k == "dims" else dict(ev[1])
+        for a in ref.axes:                      # simultaneous renaming
+            a[0] = mapping.get(a[0], a[0])
+        for key, (d, v) in ref.vars.items():
+            ref.vars[key] = ([mapping.get(x, x) for x in d], v)
     elif k in ("relabel_item", "set_axis_list", "set_axis_call", "axes_setitem_pos"):
         a = ref.axes[ev[1]]
         a[1] = _relabeled(a[1], ev[-1])
